@@ -53,13 +53,13 @@ func genC09(t *rapid.T) C09Case {
 }
 
 type c09CallObs struct {
-	done     bool
-	err      error
-	reply    []byte
-	recv     [][]byte
-	end      *kit.ErrObs
-	hdrDone  bool
-	openErr  error
+	done    bool
+	err     error
+	reply   []byte
+	recv    [][]byte
+	end     *kit.ErrObs
+	hdrDone bool
+	openErr error
 }
 
 // responseScript returns the envelopes the scripted server sends for call i.
@@ -80,13 +80,13 @@ func (c C09Case) responseScript(i int) []kit.EnvSpec {
 }
 
 type c09Run struct {
-	L        int
-	obs      []*c09CallObs
-	after    [2]*c09CallObs // unary and stream started after the failure
-	window   *c09CallObs
-	lastIdx  []int // index in the delivery order of each call's last envelope
-	res      kit.RunResult
-	tap      []kit.Ev
+	L       int
+	obs     []*c09CallObs
+	after   [2]*c09CallObs // unary and stream started after the failure
+	window  *c09CallObs
+	lastIdx []int // index in the delivery order of each call's last envelope
+	res     kit.RunResult
+	tap     []kit.Ev
 }
 
 func runC09(t *testing.T, c C09Case, pos int) *c09Run {
